@@ -145,12 +145,12 @@
         check_c21(HistoryQosPolicyKind::KeepLast(2), true);
     }
 
-    /// Quick-tier form of the eviction obligation: stored timestamps 20 s and 40 s (concrete), the incoming timestamp is
+    /// Reduced form of the eviction obligation (thorough tier as well: 11-25 min in CBMC depending on machine load): stored timestamps 20 s and 40 s (concrete), the incoming timestamp is
     /// arbitrary (before, between, equal, after), KEEP_LAST(2), one instance.
     /// @props C21
     /// @kind bounded
-    /// @tier quick
-    /// @timeout 1500
+    /// @tier thorough
+    /// @timeout 3000
     /// @bounds 2 stored samples of one instance with timestamps 20 s and 40 s, KEEP_LAST(2), incoming timestamp sec in 0..=255
     /// @fn DataReaderEntity::add_reader_change
     #[cfg_attr(kani, kani::proof)]
